@@ -262,7 +262,7 @@ func TestC14(t *testing.T) {
 	rc.MinRules = 2
 	cfgS := rsGenCfg{Rules: rc, Vary: true}
 	// (1) structural failures
-	check(t, 0, budget(900, 40000), func(rt *rapid.T) {
+	check(t, 0, budget(2400, 40000), func(rt *rapid.T) {
 		c, rs := genRSCase(rt, cfgS)
 		n := rapid.IntRange(1, 2).Draw(rt, "ninject")
 		var wheres, kinds []string
@@ -311,7 +311,7 @@ func TestC14(t *testing.T) {
 	rcP.MinRules = 2
 	cfgP := rsGenCfg{Rules: rcP, Vary: true, MaxCycle: func(rt *rapid.T) uint64 { return uint64(rapid.IntRange(1, 8).Draw(rt, "maxcycle")) }}
 	exhaustiveAll := true
-	check(t, 1, budget(500, 12000), func(rt *rapid.T) {
+	check(t, 1, budget(1200, 12000), func(rt *rapid.T) {
 		c, rs := genRSCase(rt, cfgP)
 		c.ErrOnFail = rapid.Bool().Draw(rt, "err_on_fail")
 		prep, err := val.Prepare(c)
